@@ -1,46 +1,80 @@
-(* C10/Proofs6.v — configuration reloads: every service that is built lives exactly one life time. *)
+(* C10/Proofs6.v — configuration reloads and provider faults: every service that is built lives
+   exactly one life time. *)
 From Verif Require Import Common.Base C10.Model C10.Proofs1 C10.Proofs2 C10.Proofs3 C10.Proofs4.
 
 Lemma gen_run_eq n : gen_run n = (fst (gen_start n) ++ fst (gen_shutdown n), snd (gen_start n) ++ snd (gen_shutdown n)).
 Proof. unfold gen_run, gen_start, gen_shutdown. apply run_eq. Qed.
 
-Lemma reload_loop_spec : forall rest cur ls,
+Definition gen_log (n : gen) : list ev := fst (gen_run n).
+
+(* events: whatever the provider does *)
+Lemma reload_loop_events pf : forall rest cur ls,
   gen_start cur = (ls, []) ->
-  exists k, k <= length rest /\ reload_loop cur ls rest = map gen_run (cur :: firstn k rest).
+  exists k, k <= length rest /\ map fst (reload_loop pf cur ls rest) = map gen_log (cur :: firstn k rest).
 Proof.
   induction rest as [|nxt rest IH]; intros cur ls Hs; simpl.
-  - exists 0. split; [lia|]. rewrite gen_run_eq, Hs. simpl. destruct (gen_shutdown cur). reflexivity.
+  - exists 0. split; [lia|]. unfold gen_log, collector_shutdown. rewrite gen_run_eq, Hs. simpl.
+    destruct (gen_shutdown cur). reflexivity.
+  - assert (Ecur : gen_log cur = ls ++ fst (gen_shutdown cur)).
+    { unfold gen_log. rewrite gen_run_eq, Hs. reflexivity. }
+    destruct (gen_shutdown cur) as [ld ed] eqn:Ed. simpl in Ecur. destruct ed as [|e ed].
+    + destruct (gn_close_fails cur).
+      * exists 0. split; [lia|]. simpl. rewrite Ecur. reflexivity.
+      * destruct (gen_start nxt) as [ls2 es2] eqn:Es. destruct es2 as [|e2 es2].
+        -- destruct (IH nxt ls2 Es) as (k & Hk & E). exists (S k). split; [lia|].
+           simpl. rewrite E. simpl. rewrite Ecur. reflexivity.
+        -- exists 1. split; [lia|]. simpl. rewrite Ecur. unfold gen_log. rewrite (gen_run_eq nxt), Es. simpl.
+           destruct (gen_shutdown nxt). reflexivity.
+    + exists 0. split; [lia|]. simpl. rewrite Ecur. reflexivity.
+Qed.
+
+(* Run over any sequence of configurations, with any provider behaviour: the services that get
+   built are a prefix of the sequence, and each of them sees exactly the event sequence of ONE
+   life time [collector_run] *)
+Lemma l_reload_generations_events pf gens :
+  exists k, k <= length gens /\ map fst (collector_run_reload pf gens) = map gen_log (firstn k gens).
+Proof.
+  destruct gens as [|g0 rest]; simpl.
+  - exists 0. split; [lia|reflexivity].
+  - destruct (gen_start g0) as [ls es] eqn:Es. destruct es as [|e es].
+    + destruct (reload_loop_events pf rest g0 ls Es) as (k & Hk & E). exists (S k). split; [lia|]. exact E.
+    + exists 1. split; [lia|]. simpl. unfold gen_log. rewrite gen_run_eq, Es. simpl. destruct (gen_shutdown g0). reflexivity.
+Qed.
+
+(* with a well-behaved provider also the reported errors are those of the life times *)
+Lemma reload_loop_spec : forall rest cur ls,
+  gen_start cur = (ls, []) -> gn_close_fails cur = false -> Forall (fun n => gn_close_fails n = false) rest ->
+  exists k, k <= length rest /\ reload_loop false cur ls rest = map gen_run (cur :: firstn k rest).
+Proof.
+  induction rest as [|nxt rest IH]; intros cur ls Hs Hc Hr; simpl.
+  - exists 0. split; [lia|]. unfold collector_shutdown, provider_errs. rewrite gen_run_eq, Hs, Hc. simpl.
+    destruct (gen_shutdown cur). reflexivity.
   - assert (Ecur : gen_run cur = (ls ++ fst (gen_shutdown cur), snd (gen_shutdown cur))).
     { rewrite gen_run_eq, Hs. reflexivity. }
+    inversion Hr as [|? ? Hn Hr']; subst. rewrite Hc.
     destruct (gen_shutdown cur) as [ld ed] eqn:Ed. simpl in Ecur. destruct ed as [|e ed].
     + destruct (gen_start nxt) as [ls2 es2] eqn:Es. destruct es2 as [|e2 es2].
-      * destruct (IH nxt ls2 Es) as (k & Hk & E). exists (S k). split; [lia|].
+      * destruct (IH nxt ls2 Es Hn Hr') as (k & Hk & E). exists (S k). split; [lia|].
         rewrite E. simpl. rewrite Ecur. reflexivity.
       * exists 1. split; [lia|]. simpl. rewrite Ecur. rewrite (gen_run_eq nxt), Es. simpl.
         destruct (gen_shutdown nxt). reflexivity.
     + exists 0. split; [lia|]. simpl. rewrite Ecur. reflexivity.
 Qed.
 
-(* Run over any sequence of configurations: the services that get built are a prefix of the
-   sequence, and each of them sees exactly the life time [collector_run] of the theorems *)
-Lemma l_reload_generations gens :
-  exists k, k <= length gens /\ collector_run_reload gens = map gen_run (firstn k gens).
+Lemma l_reload_generations gens : Forall (fun n => gn_close_fails n = false) gens ->
+  exists k, k <= length gens /\ collector_run_reload false gens = map gen_run (firstn k gens).
 Proof.
-  destruct gens as [|g0 rest]; simpl.
+  intros Hf. destruct gens as [|g0 rest]; simpl.
   - exists 0. split; [lia|reflexivity].
-  - destruct (gen_start g0) as [ls es] eqn:Es. destruct es as [|e es].
-    + destruct (reload_loop_spec rest g0 ls Es) as (k & Hk & E). exists (S k). split; [lia|]. exact E.
+  - inversion Hf as [|? ? H0 Hr]; subst. destruct (gen_start g0) as [ls es] eqn:Es. destruct es as [|e es].
+    + destruct (reload_loop_spec rest g0 ls Es H0 Hr) as (k & Hk & E). exists (S k). split; [lia|]. exact E.
     + exists 1. split; [lia|]. simpl. rewrite gen_run_eq, Es. simpl. destruct (gen_shutdown g0). reflexivity.
 Qed.
 
-(* at least the first configuration's service is always built (and torn down) *)
-Lemma l_reload_first g0 rest : exists tl, collector_run_reload (g0 :: rest) = gen_run g0 :: tl.
+(* at least the first configuration's service is always built and torn down, whatever the provider does *)
+Lemma l_reload_first pf g0 rest : exists tl, map fst (collector_run_reload pf (g0 :: rest)) = gen_log g0 :: tl.
 Proof.
-  destruct (l_reload_generations (g0 :: rest)) as (k & Hk & E). rewrite E.
-  destruct k as [|k].
-  - exfalso. simpl in E. destruct (gen_start g0) as [ls es]. destruct es.
-    + destruct rest; simpl in E; destruct (gen_shutdown g0) as [ld ed]; try destruct ed; try discriminate;
-        destruct (gen_start g) as [a b]; destruct b; try discriminate; destruct (gen_shutdown g); discriminate.
-    + destruct (gen_shutdown g0). discriminate.
-  - simpl. eexists. reflexivity.
+  simpl. destruct (gen_start g0) as [ls es] eqn:Es. destruct es as [|e es].
+  - destruct (reload_loop_events pf rest g0 ls Es) as (k & _ & E). rewrite E. simpl. eexists. reflexivity.
+  - unfold gen_log. rewrite gen_run_eq, Es. destruct (gen_shutdown g0). simpl. eexists. reflexivity.
 Qed.
